@@ -11,7 +11,7 @@ Definition input_C08 : Type :=
 Definition class {A} (r : res A) : N := match r with Ok _ => 0 | Err _ => 1 | Panic => 2 | Fuel => 3 end.
 
 (* decode of the file, the Builder's ontology, outcome class for every proper prefix, for every
-   suffix, for every version byte *)
+   suffix, for every version byte (v2/v3 files: byte 3 replaced; v1 files: "HPO" + byte prepended) *)
 Definition obs_C08 : Type := res donto * res donto * list N * list N * list N.
 
 Definition dec (tbl : list (N * N)) (b : list N) : res donto :=
@@ -27,7 +27,7 @@ Definition run_C08 (i : input_C08) : obs_C08 :=
    final_dump_of (run_W (WBuilder s, tbl)),
    map (fun k => class (dec tbl (firstn k file))) (seq 0 (length file)),
    map (fun sfx => class (dec tbl (file ++ sfx))) suffixes,
-   map (fun v => class (dec tbl (set_nth3 file v))) vbytes).
+   map (fun v => class (dec tbl (if ver =? 1 then MAGIC_READER ++ [v] ++ file else set_nth3 file v))) vbytes).
 
 (* ---------------- the property ---------------- *)
 
